@@ -162,6 +162,8 @@ def d_murphy(ctx, rng, ds, paths, kind):
         gx, gy = fig.xy(ls[0])
         o, p = _evp(ds, k, b, t)
         n = float(len(o))
+        if n == 0:
+            continue
         want = []
         for th in thetas:
             v = 2 * th * sum(1 for a, q in zip(o, p) if q > th and a == 0) / n
@@ -193,6 +195,8 @@ def d_economicvalue(ctx, rng, ds, paths, kind):
         gx, gy = fig.xy(ls[0])
         o, p = _evp(ds, k, b, t)
         n = float(len(o))
+        if n == 0:
+            continue
         clim = refmetrics.mean(o)
         want = []
         for r in ratios:
@@ -268,6 +272,8 @@ def d_igncontrib(ctx, rng, ds, paths, kind):
             else:
                 wy.append(NAN)
         N = sum(wn)
+        if N == 0:
+            continue
         gx, gy = fig.xy(ls[0])
         c.compare_series(ctx, "igncontrib", "cases per probability bin, input %d" % k, ny, wn, case)
         c.compare_series(ctx, "igncontrib", "ignorance contribution per bin, input %d" % k, gy, [y / N * nb for y in wy], case, 1e-6, 1e-7)
